@@ -448,6 +448,13 @@ func aliases(ct []byte, k key) (out [][]byte, class []string) {
 		out, class = append(out, c.FillBytes(make([]byte, 256))), append(class, "plus-modulus")
 	}
 	out, class = append(out, append([]byte{0}, ct...)), append(class, "zero-prefixed")
+	// the shortened forms of the same integer: leading zero bytes dropped (one, and all of them)
+	if len(ct) > 1 && ct[0] == 0 {
+		out, class = append(out, append([]byte{}, ct[1:]...)), append(class, "zero-stripped")
+		if m := new(big.Int).SetBytes(ct).Bytes(); len(m) < len(ct)-1 {
+			out, class = append(out, m), append(class, "zero-stripped")
+		}
+	}
 	return
 }
 
@@ -603,6 +610,10 @@ func main() {
 				if ct := h.padCase(k, data, st, false, false, "leading-zero-"+want); ct != nil {
 					c.Count("pad-enc:leading-zero-" + want)
 					h.padDec(k, ct, append(append([]byte{}, data...), st[:192-l]...), k.name == "A" && l != 144, "honest-leading-zero-"+want, "")
+					as, acl := aliases(ct, k)
+					for j := range as {
+						h.padDec(k, as[j], nil, acl[j] == "zero-stripped" && k.name == "A", acl[j], "leading-zero-"+want)
+					}
 				}
 			}
 			// legacy scheme: the block starts with SHA1(data), the ciphertext is searched over the padding
@@ -621,6 +632,10 @@ func main() {
 			if ct := h.hashCase(k, data, st, false, false, "leading-zero-"+want); ct != nil {
 				c.Count("hash-enc:leading-zero-" + want)
 				h.hashDec(k, ct, data, k.name == "B" && l >= 200, "honest-leading-zero-"+want, "")
+				as, acl := aliases(ct, k)
+				for j := range as {
+					h.hashDec(k, as[j], nil, acl[j] == "zero-stripped" && k.name == "B", acl[j], "leading-zero-"+want)
+				}
 			}
 		}
 	}
